@@ -277,8 +277,7 @@ def fmtShown : Option Fmt → String
 
 def parseFmtArg (s : String) : Option String := if s == "-" then none else some s
 
-def storedFam {P} : Stored P → String
-  | .asdf _ => "asdf" | .fits _ => "fits" | .pickle _ => "pickle"
+def storedFam {P} (st : Stored P) : String := st.fmt.name
 
 /-- answer of `filert`: write status, the format of the file written, read status, object read -/
 def filertAnswer {P α} (w : Except Err (Stored P)) (rd : Stored P → Except Err α)
@@ -473,7 +472,7 @@ def step (st : St) : List String → St × String
   | ["dtype", route, ds, vals] =>
     match parseRoute? route, DType.parse? ds, parseRatList? vals with
     | some r, some d, some vs =>
-      if !d.wellFormed then (st, "bad-op") else
+      if !d.wellFormed || !DType.all.contains d then (st, "bad-op") else
       match readDType r d with
       | .error e => (st, "err " ++ showErr e)
       | .ok d' =>
